@@ -93,10 +93,12 @@ def pushIncrease (q : List (Nat × α)) (v : Nat) (f : α) : List (Nat × α) :=
   | none => q ++ [(v, f)]
   | some (_, old) => if f < old then q.map (fun p => if p.1 == v then (v, f) else p) else q
 
-/-- `tentative_gscore < existing_gscore` with a missing entry read as `Cost::INFINITY` -/
+/-- `tentative_gscore < existing_gscore` with a missing entry read as `Cost::INFINITY`: a tentative
+cost of `+∞` (an overflowing sum) or NaN does not improve on a missing label, the vertex stays
+unlabelled (`Lit.belowInf`: constantly true in an ordered field, the IEEE test at `Float`) -/
 def improves (tent : α) (existing : Option α) : Bool :=
   match existing with
-  | none => true
+  | none => Lit.belowInf tent
   | some ex => decide (tent < ex)
 
 /-- one turn of `for edge_id in incident_edge_iterator` -/
